@@ -445,9 +445,10 @@ class Program:
         if normalize and not os.environ.get("VERIF_NO_NORMALIZE"):
             from . import inline
             inline.normalize_program(P)
-        if view == "desugared":
+        if view in ("desugared", "closures", "tries"):
+            # 'closures': only the combinators that take a closure; 'desugared': every combinator; 'tries': also `?`
             from . import desugar
-            desugar.desugar_program(P)
+            desugar.desugar_program(P, closures_only=(view == "closures"), expand_try=(view == "tries"))
         return P
 
     def body(self, key):
